@@ -45,6 +45,26 @@ theorem C08_prefix_sorted (seq : List LRef) (k : Nat) :
       (listAfter (seq.take k)).Perm (seq.take k) :=
   ⟨listAfter_sorted _, listAfter_perm _⟩
 
+/-- **Intermediate lists are subsequences of the text.** At every moment of the resolution (any
+prefix of any schedule) the list is the textual-order subsequence of `refs` made of the
+references resolved so far: nothing is ever out of place, not only at the end. -/
+theorem C08_prefix_sublist (refs seq : List LRef) (hpos : refs.Pairwise (fun a b => a.pos < b.pos))
+    (hperm : seq.Perm refs) (k : Nat) : (listAfter (seq.take k)).Sublist refs := by
+  obtain ⟨l, hl, hs⟩ := List.exists_perm_sublist (List.take_sublist k seq) hperm
+  rw [C08_order l (seq.take k) (hpos.sublist hs) hl.symm]
+  exact hs
+
+/-- **Schedule independence.** Two resolution schedules of the same references (e.g. with and
+without a postponing provider) produce the same list. -/
+theorem C08_schedule_independent (refs s₁ s₂ : List LRef) (hpos : refs.Pairwise (fun a b => a.pos < b.pos))
+    (h₁ : s₁.Perm refs) (h₂ : s₂.Perm refs) : listAfter s₁ = listAfter s₂ := by
+  rw [C08_order refs s₁ hpos h₁, C08_order refs s₂ hpos h₂]
+
+/-- non-vacuity: after two of three references (the first one postponed) the list is `[b, c]`,
+a subsequence of `[a, b, c]` -/
+example : listAfter (([⟨1, 20, 101⟩, ⟨2, 30, 102⟩, ⟨0, 10, 100⟩] : List LRef).take 2) =
+    [⟨1, 20, 101⟩, ⟨2, 30, 102⟩] := by decide
+
 /-- The pinned behaviour before the repair (append in resolution order) violates
 the property: postponing the first of three references once yields `[b, c, a]`. -/
 theorem C08_append_false :
